@@ -1,6 +1,6 @@
 (* Facts about the tables the driver package has NOW (Gen/Gen_C09Tables.v is regenerated from /repo on
    every run, so these are re-proved whenever configFields / pprofCommands change). *)
-From PV Require Import M_Crash L_Crash Gen.Gen_C09Tables.
+From PV Require Import M_Crash L_Crash Gen.Gen_C09Tables Gen.Gen_C09CallTree.
 Open Scope string_scope.
 Open Scope Z_scope.
 
@@ -45,3 +45,17 @@ Lemma session_then_top_lemma : forall pf stypes dst cfg lines cfg' evs,
   session config_fields pf commands help_keys stypes dst cfg lines [] = SCont cfg' evs ->
   answers_top (process_input config_fields pf commands help_keys stypes dst cfg' "top 3") = true.
 Proof. intros. apply top_answered_lemma. Qed.
+
+(* the source scan understood every site, and every g.TrimTree call is guarded by formats for which
+   newGraph builds a call tree (re-proved on the sets regenerated from /repo each run) *)
+Lemma trim_tree_sites_fact :
+  calltree_scan_ok && forallb (fun site => incl_b (snd site) build_tree_formats) trim_tree_sites = true.
+Proof. vm_compute. reflexivity. Qed.
+
+Lemma trim_tree_sites_no_panic : forall site, In site trim_tree_sites ->
+  forall ct fmt dropped two, is_panic (trim_site_outcome build_tree_formats (snd site) ct fmt dropped two) = false.
+Proof.
+  intros site Hin. apply trim_site_no_panic.
+  pose proof trim_tree_sites_fact as H. apply andb_prop in H. destruct H as [_ H].
+  rewrite forallb_forall in H. apply H. exact Hin.
+Qed.
